@@ -50,6 +50,8 @@ TCall ==
             /\ a' = [a EXCEPT !.ready = E.ready, !.refused = @ \/ (E.res = "err" /\ ~("overflow" \in DOMAIN E /\ E.overflow))]
        [] E.op = "sb_write" ->
             /\ Step(StateFails \cup SbWriteFails(a, E)) /\ a' = [a EXCEPT !.ready = E.ready, !.bleft = BodyLeftAfter(a, E)]
+       [] E.op = "sb_direct" ->
+            /\ Step(StateFails \cup SbDirectFails(a, E)) /\ a' = SbDirectUpd(a, E)
        [] E.op = "read" ->
             /\ Step(StateFails) /\ a' = [a EXCEPT !.ready = E.ready]
        [] E.op = "new_flow" ->
